@@ -124,6 +124,103 @@ def de_request(spec, rec):
     return line, compare
 
 
+
+# ------------------------------------------------------------------ DE, reconfigured runs
+DEC_OPS = ("step", "setpenalty", "setconstraints", "setranges", "finalize", "setlimits", "settermination", "earlyexit", "clearexit")
+
+
+def dec_request(spec, rec):
+    """differential evolution through ANY sequence of Step / Set* ops (Model/Reconfig.lean): one `gen` per performed
+    iteration with the settings in force at that iteration; the replay stops before the first event the model does
+    not cover (a monitor replaced, a Solve op, a re-decoration that re-draws an out-of-box member at random, a
+    randomising box)"""
+    if spec["solver"] not in ("DE", "DE2") or spec.get("pushing"):
+        return None, None
+    if spec["cost"][0] == "vector" and not spec.get("reducer"):
+        return None, None
+    import solvermon
+    tl = solvermon.config_timeline(spec, rec)
+    gens, snaps = [], []
+    prev = None            # snapshot after the previous op
+    why = "end"
+    for oi, op in enumerate(spec["ops"]):
+        if oi >= len(rec.snaps):
+            break
+        sn = rec.snaps[oi]
+        if op[0] not in DEC_OPS:
+            why = "op:" + op[0]; break
+        if op[0] == "step" and solvermon.step_ran(sn):
+            cfg = tl[oi][0]
+            if cfg.get("ranges") and cfg["ranges"][3] is False:
+                why = "randomising-box"; break
+            redec = prev is None or (not prev["live"]) or len(op) > 1
+            ngen = prev["generations"] if prev is not None else 0
+            allclip = ngen == 0
+            if redec and cfg.get("ranges") and not allclip and prev is not None:
+                lo, hi = cfg["ranges"][0], cfg["ranges"][1]
+                pe = prev["popEnergy"]
+                try:
+                    idx = pe.index(prev["bestEnergy"])
+                except ValueError:
+                    why = "best-not-in-popEnergy"; break
+                outside = [i for i, m in enumerate(prev["population"]) if i != idx and any(v < l or v > h for v, l, h in zip(m, lo, hi))]
+                if outside:
+                    why = "random-redraw"; break
+            n0 = prev["n_trials"] if prev is not None else 0
+            trs = [t for _, _, t in rec.trials[n0:sn["n_trials"]]]
+            npop = len(rec.init_population)
+            first = not gens and (prev is None or prev["n_stepmon"] == 0)
+            if first:
+                if trs:
+                    why = "trials-at-generation-0"; break
+                tsx = "members"
+            else:
+                if len(trs) != npop:
+                    why = "partial-generation"; break
+                tsx = fll(trs)
+            sub = dict(spec); sub["penalty"] = cfg.get("penalty"); sub["constraints"] = cfg.get("constraints"); sub["ranges"] = cfg.get("ranges")
+            gens.append("(gen (cfg %s) (redec %s) (allclip %s) (two %s) (trials %s))" % (
+                setup_sexp(sub), "true" if redec else "false", "true" if allclip else "false",
+                "true" if spec["solver"] == "DE2" else "false", tsx))
+            snaps.append(sn)
+        prev = sn
+    if len(gens) < 2:
+        return None, None
+    line = "C01 dec (pop %s) (gens (%s))" % (fll(rec.init_population), " ".join(gens))
+
+    def compare(reply):
+        steps, r = parse_steps(reply)
+        if steps is None:
+            return [("%s/reconfigured/model-%s" % (spec["solver"], r[0]), "model replied %r" % (reply[:200],))]
+        if len(steps) != len(snaps):
+            return [("%s/reconfigured/model-step-count" % spec["solver"], "model ran %d steps, implementation %d" % (len(steps), len(snaps)))]
+        out = []
+        for k, (st, sn) in enumerate(zip(steps, snaps)):
+            mpop = [fvec(p) for p in st["pop"]]
+            diffs = []
+            if len(mpop) != len(sn["population"]) or not all(same_vec(a, b) for a, b in zip(mpop, sn["population"])):
+                diffs.append("population model=%r impl=%r" % (mpop, sn["population"]))
+            if not same_vec(fvec(st["popE"]), sn["popEnergy"]):
+                diffs.append("popEnergy model=%r impl=%r" % (fvec(st["popE"]), sn["popEnergy"]))
+            if not same_vec(fvec(st["best"]), sn["bestSolution"]):
+                diffs.append("bestSolution model=%r impl=%r" % (fvec(st["best"]), sn["bestSolution"]))
+            if not same_float(b2f(st["bestE"]), sn["bestEnergy"]):
+                diffs.append("bestEnergy model=%r impl=%r" % (b2f(st["bestE"]), sn["bestEnergy"]))
+            if int(st["nlog"]) != sn["n_cost_calls"]:
+                diffs.append("cost calls model=%s impl=%d" % (st["nlog"], sn["n_cost_calls"]))
+            if diffs:
+                out.append(("%s/reconfigured/step-diverges" % spec["solver"], "performed iteration %d (op %r): %s" % (k, sn["op"], "; ".join(diffs)[:900])))
+                break
+        if not out:
+            r1 = r[1]
+            if spec["cost"][0] == "scalar" and "logsum" in r1 and int(r1["logsum"]) != log_checksum(rec.cost_calls[:snaps[-1]["n_cost_calls"]]):
+                out.append(("%s/reconfigured/evaluation-log-differs" % spec["solver"], "the sequence of (point, cost) pairs the user's cost was called with differs from the model's evaluation log"))
+        return out
+    nredec = sum(1 for g in gens[1:] if "(redec true)" in g)
+    ncfg = len({g.split(" (redec ")[0] for g in gens})
+    compare.dec_info = (len(gens), why, nredec, ncfg)
+    return line, compare
+
 # ------------------------------------------------------------------ NM
 def nm_request(spec, rec):
     if spec["solver"] != "NM" or not modelable(spec) or spec["dim"] > 15:
